@@ -48,6 +48,37 @@ def cmd_dev(args):
     return 0
 
 
+def cmd_setup(args):
+    """Warm the dependency caches (offline) and self-test the extraction."""
+    log = {}
+    with workspace.Scratch("setup") as sc:
+        sc.copy_repo()
+        src = workspace.expand(sc, log)
+        unit = verus.load_unit()
+        report = {}
+        out = verus.assemble(src, unit, report)
+        import fidelity
+        fid = fidelity.check(src, out.text(), report)
+        print("expand %.1fs; unit %d bytes; verify=%d assume=%d; fidelity %s" % (log["expand_s"], out.nbytes, len(report["verify"]), len(report["assume"]), fid))
+        if not fid["ok"]:
+            return 2
+        import kani
+        if hasattr(kani, "warm"):
+            kani.warm(sc, log)
+    return 0
+
+
+def cmd_replay(args):
+    d = json.load(open(args.path))
+    print(json.dumps(d, indent=1))
+    rp = d.get("replay") or {}
+    if rp.get("cmd"):
+        import subprocess
+        return subprocess.call(rp["cmd"], shell=True)
+    print("no executable replay attached: the verifier gave no counterexample for this obligation (no-failing-input-found)")
+    return 0
+
+
 def main():
     ap = argparse.ArgumentParser(prog="verif")
     sub = ap.add_subparsers(dest="cmd")
@@ -58,10 +89,25 @@ def main():
     d.add_argument("--function")
     d.add_argument("--rlimit", type=int)
     d.add_argument("--max", type=int, default=15)
+    c = sub.add_parser("check")
+    c.add_argument("pid")
+    c.add_argument("--tier", default=os.environ.get("VERIF_TIER", "quick"))
+    c.add_argument("--update-baseline", action="store_true")
+    sub.add_parser("setup")
+    r = sub.add_parser("replay")
+    r.add_argument("path")
     args = ap.parse_args()
     try:
+        if args.cmd == "setup":
+            return cmd_setup(args)
+        if args.cmd == "replay":
+            return cmd_replay(args)
         if args.cmd == "dev":
             return cmd_dev(args)
+        if args.cmd == "check":
+            import check
+            seed = int(os.environ.get("VERIF_SEED", "0") or 0)
+            return check.check(args.pid, args.tier, seed, update_baseline=args.update_baseline)
         ap.print_help()
         return 2
     except (ToolError, gen.GenError) as e:
